@@ -36,10 +36,11 @@ def cases(ctx):
     holder = {"title": "Holder", "type": "object", "properties": {k.lower(): {"$ref": "#/definitions/" + k} for k in lat}, "definitions": lat}
     # ... and under a conversion registered for exactly the PLAIN string schema (constrained strings are other schemas: their
     # newtypes keep their surface whatever plain strings convert to)
-    conv = lambda ty: {"convert": [{"schema": {"type": "string"}, "type": ty, "impls": ["Display", "FromStr", "Default"]}]}
+    conv = lambda ty: {"convert": [{"schema": {"type": "string"}, "type": ty, "impls": ["Display", "Default"]}]}
     for st in settings[:2] + [{"derives": ["::altser::Serialize", "::altser::Deserialize", "Eq"]}, {"derives": ["::std::hash::Hash", "::std::fmt::Debug"]},
                               conv("::std::boxed::Box<str>"), conv("::std::borrow::Cow<'static, str>")]:
-        out.append(("lattice", {"settings": st, "calls": [{"root": holder}]}))
+        # (derive lists naming a crate that does not exist, or repeating a built-in derive, are for the syntactic half only)
+        out.append(("lattice" if "derives" not in st else "lattice-syn", {"settings": st, "calls": [{"root": holder}]}))
     import corpus
     for cid, cdoc, _ in corpus.documents():
         if cid.startswith(("hand:", "file:")): out.append(("corpus:" + cid, {"settings": settings[len(cid) % 2], "calls": [{"root": cdoc}]}))
@@ -102,7 +103,9 @@ def run(ctx):
     try:
         import batch
         b = batch.Batch("c19-" + ctx.tier, assertions=True)
-        sel = ok[: (200 if ctx.tier == "thorough" else 24)]
+        # the hand-written lattice under every settings assignment always, then the first cases of the rest
+        lat_ = [i for i in ok if cs[i][0] == "lattice"]
+        sel = lat_ + [i for i in ok if cs[i][0] != "lattice"][: (200 if ctx.tier == "thorough" else 24)]
         bc = [b.add_case(cs[i][1]["calls"], cs[i][1]["settings"], tag=cs[i][0]) for i in sel]
         def extra(case):
             items_ = []
@@ -115,6 +118,8 @@ def run(ctx):
             if c.compiled: compiled += 1
             else:
                 errs = [e for e in (c.rustc_errors or []) if "_assert" in json.dumps(e)]
+                # (the lattice is written to compile: there any error leaves the trait surface of its types undecided)
+                if not errs and cs[i][0] == "lattice" and not getattr(c, "skipped", False): errs = list(c.rustc_errors or [])[:2] or [{"message": "did not compile"}]
                 if errs: bound_fail.append((cs[i], errs[:2]))
     except Exception as e:   # pipeline not available: say so, do not fail the check
         ctx.notes.append("batch pipeline unavailable for bound assertions: %r" % (e,))
